@@ -4,6 +4,7 @@ as soon as the visitor says so.  For every tree that is a search tree (which eve
 collection is: `Props.C01.invariants`), every target, both directions, every visitor.
 -/
 import Gkv.Proofs.Visit
+import Gkv.Proofs.Cache
 open Std
 
 namespace Gkv.Props.C06
@@ -45,5 +46,51 @@ example :
               (.node .nil ⟨[5], [], 2⟩ 1 1 .nil none none) none none
     (visit cmpBytes true (fun (acc : List (Bytes × Nat)) i d => (acc ++ [(i.key, d)], acc.length < 1)) t [2] 0 []).1
       = [([3], 0), ([5], 1)] := by decide
+
+/-! ### the same on the lazily loaded tree (Model L, `Model/Cache.lean`) -/
+
+open Gkv.Cache in
+/-- `VisitItemsAscend` / `VisitItemsDescend` as `visitNodes` performs them — loading nodes and items
+    on the way down, re-reading the item with its value when asked for, evicting it on the way out
+    — from ANY cached view of a tree that is coherent with the file: the visitor is handed exactly
+    Model A's sequence (`ascend_exact` / `descend_exact` say what that is) with the true depths,
+    values whenever asked for and never a wrong one, and what is left is a view of the same tree. -/
+theorem lazy_visit_exact (f : Bytes) (bound : Nat) (cmp : Bytes → Bytes → Ordering) (asc wv : Bool)
+    (tgt : Bytes) (fuel : Nat) (c : CTree) (T : Tree) (d : Nat)
+    (hc : T.Coherent f bound) (hr : Rep c T) (hf : T.height < fuel) :
+    ∃ out c' rds, visitC f cmp asc wv fuel c tgt d = some (out, c', rds) ∧ Rep c' T ∧
+      AgreeVisit wv out (if asc then Tree.visitAsc cmp T tgt d else Tree.visitDesc cmp T tgt d) := by
+  obtain ⟨out, c', rds, e, h1, h2, _⟩ := visitC_spec f bound cmp asc wv tgt fuel c T d hc hr hf
+  exact ⟨out, c', rds, e, h1, h2⟩
+
+open Gkv.Cache in
+/-- "… and visiting stops as soon as the visitor returns false", on the lazily loaded tree: a
+    visitor that says stop at the `b`-th item it is handed (`b > 0`) has been handed exactly the
+    first `b` items of Model A's sequence — all of it when it is shorter —, the budget left is
+    `b - length` (0: it said stop), and what is left, after the evictions of every node on the way
+    out, is a view of the same tree.  From any cached view, both directions, both value modes. -/
+theorem lazy_visit_stops (f : Bytes) (bound : Nat) (cmp : Bytes → Bytes → Ordering) (asc wv : Bool)
+    (tgt : Bytes) (fuel : Nat) (c : CTree) (T : Tree) (d b : Nat)
+    (hc : T.Coherent f bound) (hr : Rep c T) (hf : T.height < fuel) (hb : 0 < b) :
+    ∃ out b' c' rds, visitCK f cmp asc wv fuel c tgt d b = some (out, b', c', rds) ∧ Rep c' T ∧
+      AgreeVisit wv out ((if asc then Tree.visitAsc cmp T tgt d else Tree.visitDesc cmp T tgt d).take b) ∧
+      b' = b - (if asc then Tree.visitAsc cmp T tgt d else Tree.visitDesc cmp T tgt d).length := by
+  obtain ⟨out, b', c', rds, e, h1, h2, h3, _⟩ :=
+    visitCK_spec f bound cmp asc wv tgt fuel c T d b hc hr hf hb
+  exact ⟨out, b', c', rds, e, h1, h2, h3⟩
+
+open Gkv.Cache in
+/-- non-vacuity: two items on file, cold view, ascending with values, stop at the first item: one
+    item delivered, budget 0, and the far subtree was never loaded -/
+example :
+    let a : Item := ⟨[1], [5], 9⟩
+    let b : Item := ⟨[2], [6], 3⟩
+    -- file: item a @0 (18), item b @18 (18), node b @36 (52), node a @88 (52, right = node b)
+    let f : Bytes := encItem a ++ encItem b ++ encNode ⟨some ⟨18, 18⟩, none, none, 1, 2⟩ ++
+      encNode ⟨some ⟨0, 18⟩, none, some ⟨36, 52⟩, 2, 4⟩
+    (visitCK f cmpBytes true true 5 (.stub ⟨88, 52⟩) [] 0 1).map (fun x => (x.1, x.2.1, x.2.2.1)) =
+      some ([(⟨[1], 9, some [5]⟩, 0)], 0,
+            .node .nil (.stub ⟨0, 18⟩) 2 4 (.stub ⟨36, 52⟩) (some ⟨88, 52⟩)) := by
+  decide +kernel
 
 end Gkv.Props.C06
